@@ -81,9 +81,11 @@ Qed.
 Definition step_post (p : chain) (l l' : layer) (k cb bn vc : nat) (bh : list term) (b : body)
            (group i : nat) (f : N) (a : list term) (pr : N) : Prop :=
   Inv p l' /\ extA (l :: p) (l' :: p) /\ frm (l :: p) (l' :: p) /\ ADC (l' :: p) k cb bn vc bh b /\
-  forall fuel s, abs fuel (l' :: p) s = abs fuel (l :: p) s ++
+  (forall fuel s, abs fuel (l' :: p) s = abs fuel (l :: p) s ++
      (if sig_eqb s (FU f, length a)
-      then [RClause a (Some pr) (adbody fuel (tl bh) b i (t_app f a) (var_args vc) pr) vc true] else []).
+      then [RClause a (Some pr) (adbody fuel (tl bh) b i (t_app f a) (var_args vc) pr) vc true] else [])) /\
+  (forall s, grp (l' :: p) s = grp (l :: p) s ++
+     (if sig_eqb s (FU f, length a) then [Some (group, group, group)] else [])).
 
 Lemma ad_head_step_spec : forall p l k group vc bh cb bn b i f a pr,
   Inv p l -> ADC (l :: p) k cb bn vc bh b ->
@@ -93,14 +95,14 @@ Proof.
   intros p l k group vc bh cb bn b i f a pr I A.
   unfold ad_head_step.
   set (n1 := NChoice group i (t_app f a) (var_args vc) (Some pr)).
-  pose proof (app_post p l n1 I Logic.I (fun _ _ _ H => ltac:(discriminate H)) eq_refl) as H1. cbv zeta in H1.
+  pose proof (app_post p l n1 I Logic.I (fun _ _ _ H => ltac:(discriminate H)) eq_refl Logic.I) as H1. cbv zeta in H1.
   change (app_node p l n1) with (fst (app_node p l n1), size (l :: p)). cbv beta iota.
   set (l1 := fst (app_node p l n1)) in *. set (cn := size (l :: p)) in *.
   destruct H1 as (I1 & Hext1 & Hfrm1 & Hdefs1 & Hfr1 & Hg1 & Hsz1).
   set (n2 := NCallChoice group i (t_app f a) (var_args vc) cn).
   assert (Hok2 : ok_node (fst (app_node p l1 n2) :: p) n2).
   { change (fr (fst (app_node p l1 n2) :: p) cn). apply fr_app_old; [apply I1|exact Hfr1]. }
-  pose proof (app_post p l1 n2 I1 Hok2 (fun _ _ _ H => ltac:(discriminate H)) eq_refl) as H2. cbv zeta in H2.
+  pose proof (app_post p l1 n2 I1 Hok2 (fun _ _ _ H => ltac:(discriminate H)) eq_refl Logic.I) as H2. cbv zeta in H2.
   change (app_node p l1 n2) with (fst (app_node p l1 n2), size (l1 :: p)). cbv beta iota.
   set (l2 := fst (app_node p l1 n2)) in *. set (cc := size (l1 :: p)) in *.
   destruct H2 as (I2 & Hext2 & Hfrm2 & Hdefs2 & Hfr2 & Hg2 & Hsz2).
@@ -108,7 +110,7 @@ Proof.
   assert (Hcb2 : fr (l2 :: p) cb) by (apply Hfrm2, Hfrm1; apply A).
   assert (Hok3 : ok_node (fst (app_node p l2 n3) :: p) n3).
   { change (fr (fst (app_node p l2 n3) :: p) cb). apply fr_app_old; [apply I2|exact Hcb2]. }
-  pose proof (app_post p l2 n3 I2 Hok3 (fun _ _ _ H => ltac:(discriminate H)) eq_refl) as H3. cbv zeta in H3.
+  pose proof (app_post p l2 n3 I2 Hok3 (fun _ _ _ H => ltac:(discriminate H)) eq_refl Logic.I) as H3. cbv zeta in H3.
   change (app_node p l2 n3) with (fst (app_node p l2 n3), size (l2 :: p)). cbv beta iota.
   set (l3 := fst (app_node p l2 n3)) in *. set (bc := size (l2 :: p)) in *.
   destruct H3 as (I3 & Hext3 & Hfrm3 & Hdefs3 & Hfr3 & Hg3 & Hsz3).
@@ -116,7 +118,7 @@ Proof.
   assert (Hok4 : ok_node (fst (app_node p l3 n4) :: p) n4).
   { change (fr (fst (app_node p l3 n4) :: p) bc /\ fr (fst (app_node p l3 n4) :: p) cc).
     split; apply fr_app_old; try apply I3; [exact Hfr3|apply Hfrm3; exact Hfr2]. }
-  pose proof (app_post p l3 n4 I3 Hok4 (fun _ _ _ H => ltac:(discriminate H)) eq_refl) as H4. cbv zeta in H4.
+  pose proof (app_post p l3 n4 I3 Hok4 (fun _ _ _ H => ltac:(discriminate H)) eq_refl Logic.I) as H4. cbv zeta in H4.
   change (app_node p l3 n4) with (fst (app_node p l3 n4), size (l3 :: p)). cbv beta iota.
   set (l4 := fst (app_node p l3 n4)) in *. set (cj := size (l3 :: p)) in *.
   destruct H4 as (I4 & Hext4 & Hfrm4 & Hdefs4 & Hfr4 & Hg4 & Hsz4).
@@ -142,7 +144,7 @@ Proof.
   change (app_node p l4 n5) with (fst (app_node p l4 n5), size (l4 :: p)). cbv beta iota.
   assert (Hok5 : ok_node (fst (app_node p l4 n5) :: p) n5).
   { change (fr (fst (app_node p l4 n5) :: p) cj). apply fr_app_old; [apply I4|exact Hfr4]. }
-  pose proof (app_then_define p l4 (FU f, length a) n5 I4 Hok5 (fun _ _ _ H => ltac:(discriminate H)) eq_refl
+  pose proof (app_then_define p l4 (FU f, length a) n5 I4 Hok5 (fun _ _ _ H => ltac:(discriminate H)) eq_refl Logic.I
                 (fun k0 a0 H => ltac:(discriminate H)) (or_introl (ex_intro _ f eq_refl))) as H5.
   set (l5 := add_define p (fst (app_node p l4 n5)) (FU f, length a) (size (l4 :: p))) in *.
   destruct H5 as (I5 & Hx45 & Hfrm45 & Hd5 & Hdo5 & Hg5 & Hfr5 & Hsz5 & _).
@@ -169,6 +171,16 @@ Proof.
     rewrite (abs_after_define fuel p l4 l5 (FU f, length a) (size (l4 :: p)) _ I4 Hx45 Hd5 Hdo5 Hrc s).
     f_equal. rewrite !abs_defs. rewrite Hdefs4, Hdefs3, Hdefs2, Hdefs1.
     rewrite <- abs_defs. apply (abs_old_stable fuel p l (l4 :: p) s I Hx04).
+  - intros s.
+    assert (Hfr4cn : fr (l4 :: p) cn) by (apply Hfrm4, Hfrm3, Hfrm2; exact Hfr1).
+    assert (Hfr4cc : fr (l4 :: p) cc) by (apply Hfrm4, Hfrm3; exact Hfr2).
+    assert (Hgc : cl_groups (l5 :: p) (size (l4 :: p)) = Some (group, group, group)).
+    { unfold cl_groups. rewrite Hg5. unfold n5.
+      rewrite (Hx45 cj Hfr4), Hg4. unfold n4.
+      rewrite (Hx45 cc Hfr4cc), G4cc. unfold n2. rewrite (Hx45 cn Hfr4cn), G4cn. unfold n1. reflexivity. }
+    rewrite (grp_after_define p l4 l5 (FU f, length a) (size (l4 :: p)) _ I4 Hx45 Hd5 Hdo5 Hgc s).
+    f_equal. unfold grp at 1. rewrite Hdefs4, Hdefs3, Hdefs2, Hdefs1.
+    apply (grp_old_stable p l (l4 :: p) s I Hx04).
 Qed.
 
 Lemma ad_fold_spec : forall p k group vc bh cb bn b hl heads l i,
@@ -176,23 +188,29 @@ Lemma ad_fold_spec : forall p k group vc bh cb bn b hl heads l i,
   Inv p l -> ADC (l :: p) k cb bn vc bh b ->
   Inv p (fst (fold_left (ad_head_step p k group vc bh cb) heads (l, i))) /\
   extA (l :: p) (fst (fold_left (ad_head_step p k group vc bh cb) heads (l, i)) :: p) /\
-  forall fuel s, abs fuel (fst (fold_left (ad_head_step p k group vc bh cb) heads (l, i)) :: p) s
-                 = abs fuel (l :: p) s ++ spec_adf fuel heads hl b vc i s.
+  (forall fuel s, abs fuel (fst (fold_left (ad_head_step p k group vc bh cb) heads (l, i)) :: p) s
+                 = abs fuel (l :: p) s ++ spec_adf fuel heads hl b vc i s) /\
+  (forall s, grp (fst (fold_left (ad_head_step p k group vc bh cb) heads (l, i)) :: p) s
+             = grp (l :: p) s ++ specg_heads heads group s).
 Proof.
-  intros p k group vc bh cb bn b hl heads. induction heads as [|[[f a] pr] t IH]; intros l i Htl I A; cbn [fold_left spec_adf].
-  - simpl fst. splits; [exact I|intros j _; reflexivity|]. intros fuel s. rewrite app_nil_r. reflexivity.
+  intros p k group vc bh cb bn b hl heads. induction heads as [|[[f a] pr] t IH]; intros l i Htl I A; cbn [fold_left spec_adf specg_heads].
+  - simpl fst. splits; [exact I|intros j _; reflexivity| |].
+    + intros fuel s. rewrite app_nil_r. reflexivity.
+    + intros s. rewrite app_nil_r. reflexivity.
   - destruct (ad_head_step_spec p l k group vc bh cb bn b i f a pr I A) as [Hst Hsnd].
     destruct (ad_head_step p k group vc bh cb (l, i) (f, a, pr)) as [l' i'] eqn:E. simpl in Hst, Hsnd. subst i'.
-    destruct Hst as (I' & Hx & Hfrm & A' & Habs).
-    destruct (IH l' (S i) Htl I' A') as (I'' & Hx' & Habs').
+    destruct Hst as (I' & Hx & Hfrm & A' & Habs & Hgrp).
+    destruct (IH l' (S i) Htl I' A') as (I'' & Hx' & Habs' & Hgrp').
     splits.
     + exact I''.
     + intros j Hj. rewrite Hx'; [apply Hx; exact Hj|apply Hfrm; exact Hj].
     + intros fuel s. rewrite Habs', Habs, Htl, <- app_assoc. reflexivity.
+    + intros s. rewrite Hgrp', Hgrp, <- app_assoc. reflexivity.
 Qed.
 
 Lemma add_ad_spec : forall gm p l heads b vc, Inv p l ->
-  st_post p l (add_ad gm p l heads b vc) (fun fuel s => specF fuel (SAD heads b vc) s).
+  st_post p l (add_ad gm p l heads b vc) (fun fuel s => specF fuel (SAD heads b vc) s)
+          (fun s => specG (gsel gm p l) (SAD heads b vc) s).
 Proof.
   intros gm p l heads b vc I. unfold add_ad.
   set (group := match gm with GLocal => length (l_nodes l) | GGlobal => size p + length (l_nodes l) end).
@@ -210,7 +228,7 @@ Proof.
   change (app_node p l1 n0) with (fst (app_node p l1 n0), size (l1 :: p)). cbv beta iota.
   assert (Hok0 : ok_node (fst (app_node p l1 n0) :: p) n0).
   { change (fr (fst (app_node p l1 n0) :: p) bn). apply fr_app_old; [apply I1|exact Hfr1]. }
-  pose proof (app_then_define p l1 sb n0 I1 Hok0 (fun _ _ _ H => ltac:(discriminate H)) eq_refl) as H2.
+  pose proof (app_then_define p l1 sb n0 I1 Hok0 (fun _ _ _ H => ltac:(discriminate H)) eq_refl Logic.I) as H2.
   assert (Hfb : forall k0 a0, sb = (FBody k0, a0) -> k0 <= size (l1 :: p)).
   { intros k0 a0 E. inversion E. unfold k. lia. }
   specialize (H2 Hfb (or_intror Hnone)).
@@ -245,7 +263,7 @@ Proof.
       rewrite (render_stable (l2 :: p) (l3 :: p) (I_cl _ _ I2) Hx23 fuel bn (Hfrm12 _ Hfr1)).
       apply (render_stable (l1 :: p) (l2 :: p) (I_cl _ _ I1) Hx12 fuel bn Hfr1). }
   pose proof (ad_fold_spec p k group vc bh cb bn b hl heads l3 0 eq_refl I3 A3) as Hf.
-  destruct Hf as (I4 & Hx34 & Habs4).
+  destruct Hf as (I4 & Hx34 & Habs4 & Hgrp4).
   assert (Hx03 : extA (l :: p) (l3 :: p)).
   { intros j Hj. rewrite Hx23; [|apply Hfrm12, Hfrm1; exact Hj].
     rewrite Hx12; [|apply Hfrm1; exact Hj]. exact (extN_extA _ _ (Hext1 _) j Hj). }
@@ -258,4 +276,10 @@ Proof.
     + apply sig_eqb_eq in Es. subst s. destruct Hu as [f0 Hu]. discriminate Hu.
     + rewrite Hdo2 by (intros ->; rewrite sig_eqb_refl in Es; discriminate).
       rewrite Hdefs1. symmetry. rewrite <- (abs_old_stable fuel p l (l3 :: p) s I Hx03). reflexivity.
+  - intros s Hu. rewrite Hgrp4. simpl specG. fold group. f_equal.
+    unfold grp at 1. rewrite Hdefs3.
+    destruct (sig_eqb s sb) eqn:Es.
+    + apply sig_eqb_eq in Es. subst s. destruct Hu as [f0 Hu]. discriminate Hu.
+    + rewrite Hdo2 by (intros ->; rewrite sig_eqb_refl in Es; discriminate).
+      rewrite Hdefs1. apply (grp_old_stable p l (l3 :: p) s I Hx03).
 Qed.
